@@ -11,7 +11,7 @@ for (const i of x86.instructions) {
   out.x86.push({
     name: i.name, arch: i.arch, prefix: i.prefix, privilege: i.privilege, control: i.control, encoding: i.encoding,
     opcode: i.opcodeString, alt: !!i.alt, k: i.k || "", kmask: !!i.kmask, zmask: !!i.zmask, er: !!i.er, sae: !!i.sae,
-    broadcast: !!i.broadcast, io: i.io, ext: Object.keys(i.ext), l: i.opcode.l || "", w: i.opcode.w || "", opbyte: i.opcode.byte || "", ri: !!i.opcode.ri, mm: i.opcode.mm || "",
+    broadcast: !!i.broadcast, io: i.io, ext: Object.keys(i.ext), l: i.opcode.l || "", w: i.opcode.w || "", category: Object.keys(i.category || {}), opbyte: i.opcode.byte || "", ri: !!i.opcode.ri, mm: i.opcode.mm || "",
     ops: i.operands.map((o) => ({
       data: o.data, reg: o.reg || "", regType: o.regType || "", mem: o.mem || "", memSize: o.memSize, imm: o.imm || 0,
       immValue: o.immValue === undefined ? null : o.immValue, read: !!o.read, write: !!o.write, zext: !!o.zext,
